@@ -11,6 +11,7 @@ mod ws;
 mod c10;
 mod c12cli;
 mod c13;
+mod c14;
 mod factcheck;
 mod props;
 mod tycmp;
@@ -108,6 +109,7 @@ fn table(prop: &str) -> Option<(RunFn, ReplayFn)> {
         "C11" => (props::c11_run, props::c11_replay),
         "C12" => (props::c12_run, props::c12_replay),
         "C13" => (c13::run, c13::replay),
+        "C14" => (c14::run, c14::replay),
         "C15" => (c15::run, c15::replay),
         "C16" => (c16::run, c16::replay),
         "C17" => (c17::run, c17::replay),
